@@ -18,7 +18,7 @@ func init() {
 			{Name: "C11-R3-reaction", Doc: "react: only on →NotConnected with a live epoch; farewell iff prev=Selected ∧ ¬commsFailure ∧ socket live; reconnect loop started iff ¬shutdown and BEFORE teardown; teardown always; startConnectLoop registers the loop synchronously", Run: c11Reaction},
 			{Name: "C11-R4-failure-funnel", Doc: "every involuntary failure funnels into TCPDown guarded only by 'generation already cancelled': read error in recvLoop (no dispatch after it), transport write error in writeFrame, T7 expiry → T7Expired; reconnect counter has one call site", Run: c11Funnel},
 		},
-		NotDec: []string{"that a session is actually re-established against a real peer", "delays in real time", "every cut position of every exchange"},
+		NotDec:  []string{"that a session is actually re-established against a real peer", "delays in real time", "every cut position of every exchange"},
 		Trusted: []string{"arithmetic lemma: m ≥ 1 ∧ d > 0 ⇒ d·m ≥ d (delay monotonicity of cur×multiplier)"},
 	})
 }
